@@ -352,7 +352,10 @@ void SPxMainSM<R>::RowSingletonPS::execute(VectorBase<R>& x, VectorBase<R>& y, V
       break;
 
    case SPxSolverBase<R>::ON_LOWER:
-      if(EQrel(m_oldLo, x[m_j], this->feastol())) // xj may stay on lower
+
+      // xj may stay on lower unless its reduced cost is negative and the row is what holds it there
+      if(EQrel(m_oldLo, x[m_j], this->feastol())
+            && !(val <= -this->feastol() && EQrel(newUp, x[m_j], this->feastol())))
       {
          rStatus[m_i] = SPxSolverBase<R>::BASIC;
          y[m_i] = m_row_obj;
@@ -373,7 +376,10 @@ void SPxMainSM<R>::RowSingletonPS::execute(VectorBase<R>& x, VectorBase<R>& y, V
       break;
 
    case SPxSolverBase<R>::ON_UPPER:
-      if(EQrel(m_oldUp, x[m_j], this->feastol())) // xj may stay on upper
+
+      // xj may stay on upper unless its reduced cost is positive and the row is what holds it there
+      if(EQrel(m_oldUp, x[m_j], this->feastol())
+            && !(val >= this->feastol() && EQrel(newLo, x[m_j], this->feastol())))
       {
          rStatus[m_i] = SPxSolverBase<R>::BASIC;
          y[m_i] = m_row_obj;
